@@ -315,6 +315,10 @@ func runC07(t *simrt.Tape, o Opts) Outcome {
 	s := simrt.Run(t, cfg, func(s *simrt.Sim) {
 		w = world.New(s, "C07")
 		st.Oracle = map[string]int{}
+		if !swept && t.Choose(2, "suffix") == 1 {
+			// a metastore that suffixes key ids with its region (the DynamoDB global-table set-up)
+			w.Suffix = []string{"us-west-2", "r1"}[t.Choose(2, "suffix.which")]
+		}
 		pol := world.GenPolicy(t, world.GenOpts{AllowTinyLFU: allowTinyLFU})
 		if swept {
 			pol = world.PolicyCfg{CacheSK: true, CacheIK: true, SKCap: 1000, IKCap: 1000, Expire: expiresC02, Revoke: revokesC02, Precision: precisionC02}
@@ -414,7 +418,19 @@ func runC07(t *simrt.Tape, o Opts) Outcome {
 					drr.Key.EncryptedKey = od.Key.EncryptedKey
 				}
 			case corStructural:
-				switch t.Choose(7, "struct.what") {
+				switch t.Choose(9, "struct.what") {
+				case 7:
+					// a parent key id that is not a key id at all
+					drr.Key.ParentKeyMeta.ID = []string{"", "garbage", "_", "_IK_", "x_", "_x", "%s", "_IK_a_svc_prod_", "\x00"}[ps%9]
+					maysucceed = false
+				case 8:
+					// the id of the record's own key with something appended / cut off
+					if ps%2 == 0 {
+						drr.Key.ParentKeyMeta.ID += []string{"_", "_us-west-2", "x", "_r1"}[(ps/2)%4]
+					} else if n := len(drr.Key.ParentKeyMeta.ID); n > 1 {
+						drr.Key.ParentKeyMeta.ID = drr.Key.ParentKeyMeta.ID[:n-1-(ps/2)%(n-1)]
+					}
+					maysucceed = false
 				case 0:
 					drr.Key = nil
 				case 1:
